@@ -1,4 +1,8 @@
-# per-property configuration of bin/check
+# per-property configuration of bin/check: one JSON file per claimed property in /verif/props/
+import json, os, glob
+
+VERIF = os.path.dirname(os.path.dirname(os.path.abspath(__file__)))
+
 TRUSTED_BASE = [
     "Coq 8.16.1 kernel (coqc; coqchk re-check in the thorough tier) and its vm_compute evaluator; no native_compute, no -type-in-type, no -impredicative-set, guard/positivity/universe checks on",
     "no Axiom/Parameter/Conjecture/Admitted/admit and no section-less Variable/Hypothesis in the development (grepped on every run)",
@@ -7,37 +11,31 @@ TRUSTED_BASE = [
     "all of /repo is modelled, not verified: the tie between model and code is the differential check only",
 ]
 
+# commits in /repo that add build-tag guarded hooks (none: every check goes through exported API)
 HOOK_COMMITS = []
 
-_WIP = "check not yet built in this session (design: DESIGN.md section 4); will be claimed once its model, theorems and correspondence run"
+PROPS = {}
+for _f in sorted(glob.glob(os.path.join(VERIF, "props", "C*.json"))):
+    PROPS[os.path.basename(_f)[:-5]] = json.load(open(_f, encoding="utf-8"))
+
+# reasons for properties that are not claimed (kept current by hand; empty when all are claimed)
+_WIP = "check not yet built (design: DESIGN.md section 4); will be claimed once its model, theorems and correspondence run"
 NOT_APPLICABLE = {("C%02d" % i): _WIP for i in range(1, 21)}
 
-PROPS = {
-    "C15": {
-        "design_ref": "DESIGN.md §4 C15",
-        "level_text": "Theorem duration_roundtrip: for every int64 d, dur_unmarshal (dur_marshal d) = Ok d, proved in Coq about an executable model of duration.go (int64 wrap-around explicit); the model is compared with Duration.MarshalText/UnmarshalText on boundary, random and grammar/mutation inputs on every run, and the round trip is also evaluated on the implementation's own output.",
-        "level_note": "Trusted: Coq kernel + vm_compute; the harness; regexp semantics of the two duration expressions represented by a deterministic recogniser (validated by correspondence). encoding/xml's reflection-driven codec is exercised by the harness only.",
-        "theorems": ["duration_roundtrip", "dur_unmarshal_nil", "dur_marshal_zero_iff"],
-        "correspondence": "DurationModel.dur_marshal ~ saml.Duration.MarshalText ; DurationModel.dur_unmarshal ~ saml.Duration.UnmarshalText",
-        "rule": "boundary classes (powers of ten +-1, carries at 60 s / 60 min, extremes, every whole second 0..120), 3-digit fractions x magnitudes, random int64 from 5 distributions; grammar-generated and mutated duration strings. distinct = distinct Gallina case term; non-trivial = not (d = 0) and not (string without 'P')",
-        "assumptions": ["regexp leftmost-first semantics of the two duration regular expressions equals the deterministic recogniser (argued in DurationModel.v, exercised by grammar/mutation strings)"],
-    },
-    "C10": {
-        "design_ref": "DESIGN.md §4 C10",
-        "theorems": ["C10_pad_roundtrip", "C10_cbc_blocks_roundtrip", "C10_block_roundtrip", "C10_block_encrypt_succeeds", "C10_oaep_roundtrip", "C10_pkcs_roundtrip", "C10_offered_all_registered", "C10_gcm_encrypt_refuted"],
-        "correspondence": "Xmlenc.block_encrypt/rsa_encrypt ~ xmlenc.{CBC,GCM,RSA}.Encrypt (emitted CipherValue byte-exact, IV = last RandReader draw) ; Decrypt(Encrypt(p)) = p evaluated on the implementation; interoperation with a std-library reference in both directions",
-        "rule": "for each of 5 block algorithms x {direct key, OAEP-mgf1p x 4 digests, xmlenc11 OAEP x 2 digests, PKCS1v15}: plaintext lengths 0..4 blocks+1 (all for direct keys, boundary lengths for transports in quick) + random longer, nil and supplied nonce for GCM; interop cases both directions incl. random pad bytes and absent DigestMethod. distinct = distinct (alg, transport, digest, length, nonce mode); all non-trivial",
-        "level_text": "Theorems: padding round-trips for every plaintext and block size; CBC over any invertible block cipher inverts itself (induction over block lists); decrypt(encrypt p) = Ok p for every offered CBC cipher, key, IV and plaintext, directly and under every key transport x registered digest, over abstract primitives with round-trip hypotheses; every emitted algorithm/digest identifier has a registered decrypter. AES-GCM Encrypt is excluded by a visible hypothesis and C10_gcm_encrypt_refuted proves the faithful model fails there (known finding K1). The model is compared with xmlenc byte for byte and the round trip and both interop directions are evaluated on the implementation on every run.",
-        "level_note": "Primitives (AES, 3DES, GCM, RSA) are abstract: section hypotheses dec(enc x)=x, unwrap(wrap k)=k, exercised on the real primitives by the harness. Interoperation is decided by the harness against a std-library reference (crypto/aes, crypto/des, crypto/cipher, crypto/rsa, own EME-OAEP with MGF1-SHA1), not by a theorem. Known findings K1 (GCM Encrypt) and K2 (OAEP MGF hash).",
-        "assumptions": ["block cipher / AEAD / RSA primitives behave as their round-trip hypotheses state (checked on the real primitives on every run)"],
-    },
-    "C11": {
-        "design_ref": "DESIGN.md §4 C11",
-        "theorems": ["C11_decrypt_total", "C11_cbc_guards_exact", "C11_padding_guards_exact", "C11_gcm_guards_exact", "C11_gcm_modification_rejected", "C11_cert_mismatch_rejected", "C11_digest_must_be_registered"],
-        "correspondence": "Xmlenc.decrypt ~ xmlenc.Decrypt (result bytes / error / panic), primitive results supplied per case from crypto/cipher and crypto/rsa directly",
-        "rule": "cipher-value lengths 0..4 blocks+1 exhaustively per algorithm (zeros and random); crafted CBC ciphertexts with last plaintext byte 0..255 and 1..3 blocks; key sizes 0..33 and 7 Go key types; missing/unknown/empty algorithm and digest identifiers; missing or undecodable cipher data; RSA-wrapped keys x transports x digests x certificate kinds x key values; encrypted keys nested 1..4 deep; GCM single-bit flips. distinct = distinct Gallina case term; trivial = element without EncryptionMethod",
-        "level_text": "Theorem C11_decrypt_total: for all primitive behaviours, key values and element trees (by structural induction, any nesting depth) the model of Decrypt never reaches a Panic outcome, where Panic is an explicit result of the slicing/CryptBlocks wrappers whose preconditions the Go runtime enforces; the acceptance conditions are characterised exactly (iff). The model's guards are compared with xmlenc.Decrypt on exhaustive length and padding lattices on every run, and 'no panic' is evaluated on the implementation's own outcome.",
-        "level_note": "Panics inside dependencies (etree, encoding/base64, crypto/*) are outside the model and observed by the harness only. Primitives abstract.",
-        "assumptions": ["etree FindElement path semantics are represented by the abstract element fields (method, digest, certificate, cipher value, first nested EncryptedKey); exercised with prefixed and default-namespace renderings"],
-    },
-}
+
+def write_coqproject():
+    """_CoqProject lists every .v under theories/ and Properties/ (dependency order comes from coqdep)"""
+    coq = os.path.join(VERIF, "coq")
+    lines = ["-Q theories Saml", "-Q Properties SamlProps"]
+    lines += sorted("theories/" + os.path.basename(p) for p in glob.glob(os.path.join(coq, "theories", "*.v")))
+    lines += sorted("Properties/" + os.path.basename(p) for p in glob.glob(os.path.join(coq, "Properties", "*.v")))
+    txt = "\n".join(lines) + "\n"
+    p = os.path.join(coq, "_CoqProject")
+    if not os.path.exists(p) or open(p).read() != txt:
+        open(p, "w").write(txt)
+        return True
+    return False
+
+
+if __name__ == "__main__":
+    write_coqproject()
